@@ -5,7 +5,7 @@ sys.path.insert(0, os.path.dirname(os.path.abspath(__file__)))
 import vlib
 
 
-REQUIRED = {"lease", "core", "v3restore", "bigdb", "restoreplan", "tsrestore", "walreader", "restorefault", "scen", "killsup", "vfsdrv", "followdrv"}     # drivers of registered checks; others are work in progress and only warned about
+REQUIRED = {"lease", "core", "v3restore", "bigdb", "restoreplan", "tsrestore", "walreader", "restorefault", "scen", "killsup", "vfsdrv", "followdrv", "envtrace"}     # drivers of registered checks; others are work in progress and only warned about
 
 
 def main():
